@@ -147,16 +147,19 @@ theorem libParents_sub' {p : String} (h : p ∈ libParents) : p ∈ pyLibs := by
   simp [libParents] at h
   simp [pyLibs, h]
 
-/-- what an accepted call looks like (uses `unknownCallRaises = true`, `arityChecked = true`) -/
-theorem callKind_ok {name : Option String} {n : Nat} {t : MType} {k : Option Nat} {u : Bool}
-    (h : callKind name n = .ok (t, k, u)) :
+/-- what an accepted call looks like (uses `unknownCallRaises = true`, `arityChecked = true`,
+    `binaryNumpyOnly = true`) -/
+theorem callKind_ok {name : Option String} {isMath : Bool} {n : Nat} {t : MType} {k : Option Nat} {u : Bool}
+    (h : callKind name isMath n = .ok (t, k, u)) :
     k = none ∧ ∃ fn, name = some fn ∧
-      ((u = true ∧ n = 1 ∧ (fn, t) ∈ unaryTable) ∨ (u = false ∧ n = 2 ∧ (fn, t) ∈ binaryTable) ∨
+      ((u = true ∧ n = 1 ∧ (fn, t) ∈ unaryTable) ∨
+       (u = false ∧ n = 2 ∧ isMath = false ∧ (fn, t) ∈ binaryTable) ∨
        (u = false ∧ (fn, t) ∈ naryTable)) := by
   cases name with
   | none => simp [callKind, unknownCallRaises] at h
   | some fn =>
-    simp only [callKind, unknownCallRaises, arityChecked, if_true, ↓reduceIte] at h
+    simp only [callKind, unknownCallRaises, arityChecked, binaryNumpyOnly, if_true, ↓reduceIte,
+      Bool.true_and] at h
     cases hu : unaryTable.lookup fn with
     | some t' =>
       simp only [hu] at h
@@ -167,22 +170,40 @@ theorem callKind_ok {name : Option String} {n : Nat} {t : MType} {k : Option Nat
       · simp [hn] at h
     | none =>
       simp only [hu] at h
-      cases hb : binaryTable.lookup fn with
-      | some t' =>
-        simp only [hb] at h
-        by_cases hn : n = 2
-        · simp [hn] at h
-          obtain ⟨rfl, rfl, rfl⟩ := h
-          exact ⟨rfl, fn, rfl, .inr (.inl ⟨rfl, hn, mem_of_lookup hb⟩)⟩
-        · simp [hn] at h
-      | none =>
-        simp only [hb] at h
+      cases hm : isMath with
+      | true =>
+        simp only [hm, if_true] at h
         cases hx : naryTable.lookup fn with
         | some t' =>
           simp [hx] at h
           obtain ⟨rfl, rfl, rfl⟩ := h
           exact ⟨rfl, fn, rfl, .inr (.inr ⟨rfl, mem_of_lookup hx⟩)⟩
         | none => simp [hx] at h
+      | false =>
+        simp only [hm, Bool.false_eq_true, if_false] at h
+        cases hb : binaryTable.lookup fn with
+        | some t' =>
+          simp only [hb] at h
+          by_cases hn : n = 2
+          · simp [hn] at h
+            obtain ⟨rfl, rfl, rfl⟩ := h
+            exact ⟨rfl, fn, rfl, .inr (.inl ⟨rfl, hn, rfl, mem_of_lookup hb⟩)⟩
+          · simp [hn] at h
+        | none =>
+          simp only [hb] at h
+          cases hx : naryTable.lookup fn with
+          | some t' =>
+            simp [hx] at h
+            obtain ⟨rfl, rfl, rfl⟩ := h
+            exact ⟨rfl, fn, rfl, .inr (.inr ⟨rfl, mem_of_lookup hx⟩)⟩
+          | none => simp [hx] at h
+
+/-- `remainder` is in the binary table only -/
+theorem remainder_not_unary_nary (t : MType) : ("remainder", t) ∉ unaryTable ∧ ("remainder", t) ∉ naryTable := by
+  simp [unaryTable, naryTable]
+
+theorem pySemLib_eq {p a : String} (h : ¬ (p = "math" ∧ a = "remainder")) : pySemLib p a = pySem a := by
+  simp [pySemLib, h]
 
 theorem convertList_length {es : List PyExpr} {ms : List MathML} (h : convertList es = .ok ms) :
     ms.length = es.length := by
@@ -209,13 +230,13 @@ theorem evalPyList_length {I : Interp} {env : VEnv} {es : List PyExpr} {vs : Lis
     simp [ih hvs1]
 
 /-- an accepted call names a function the Python semantics knows, with the right number of arguments -/
-theorem callKind_known {fn : String} {n : Nat} {r : MType × Option Nat × Bool}
-    (h : callKind (some fn) n = .ok r) : knownCall fn n = true := by
+theorem callKind_known {fn : String} {isMath : Bool} {n : Nat} {r : MType × Option Nat × Bool}
+    (h : callKind (some fn) isMath n = .ok r) : knownCall fn n = true := by
   obtain ⟨t, k, u⟩ := r
   obtain ⟨_, fn', hfn, hc⟩ := callKind_ok h
   simp only [Option.some.injEq] at hfn
   subst hfn
-  rcases hc with ⟨_, hn, hm⟩ | ⟨_, hn, hm⟩ | ⟨_, hm⟩
+  rcases hc with ⟨_, hn, hm⟩ | ⟨_, hn, _, hm⟩ | ⟨_, hm⟩
   · subst hn
     simp only [unaryTable, List.mem_cons, List.mem_nil_iff, Prod.mk.injEq, or_false] at hm
     rcases hm with ⟨rfl, rfl⟩ | ⟨rfl, rfl⟩ | ⟨rfl, rfl⟩ | ⟨rfl, rfl⟩ | ⟨rfl, rfl⟩ | ⟨rfl, rfl⟩ | ⟨rfl, rfl⟩ |
@@ -227,7 +248,7 @@ theorem callKind_known {fn : String} {n : Nat} {r : MType × Option Nat × Bool}
   · simp only [naryTable, List.mem_cons, List.mem_nil_iff, Prod.mk.injEq, or_false] at hm
     rcases hm with ⟨rfl, rfl⟩ | ⟨rfl, rfl⟩ <;> simp +decide [knownCall, pySem, Sem.arity]
 
-theorem callKind_none_error (n : Nat) : ∃ err, callKind none n = .error err := by
+theorem callKind_none_error (b : Bool) (n : Nat) : ∃ err, callKind none b n = .error err := by
   simp [callKind, unknownCallRaises]
 
 /-! ### argument renaming -/
